@@ -174,30 +174,35 @@ def count_lines [Target] (s : Str) : USz := RInt.ofInt _ _ (lines s).length
 
 end Str
 
+/-- `for _ in 0..k { let idx = iter.next()?; cur = idx; }`: advance an iterator
+    `k` times remembering the last item; `none` when it runs dry (the `?`). -/
+def Str.advance : List Nat → Nat → Nat → Option (Nat × List Nat)
+  | it, 0, cur => some (cur, it)
+  | [], _ + 1, _ => none
+  | x :: xs, k + 1, _ => Str.advance xs k x
+
 /-- `StringLines::slice` (src/value/string.rs), hand-modelled: its two `for`
-    loops advance one iterator over the offsets after each newline.
-    `dbg` is unused (no arithmetic that can overflow besides `byte + 1`,
-    bounded by the string's length). -/
+    loops advance one iterator over the offsets just after each newline
+    (chained with the string's length when it does not end in a newline).
+    `byte + 1` cannot overflow (bounded by the string's length). -/
 def StringLines_slice_model [Target] (s : Str) (i j : USz) : Res (Option Str) :=
   -- let num = j.checked_sub(i)?;
-  RQ.bind (RInt.checked_sub j i) fun num =>
+  RQ.bind (RInt.checked_sub j i) fun _num =>
   let end_ : List Nat := if s.ends_with_nl then [] else [s.byteLen]
-  let iter := Str.afterNewlinesFrom 0 s.chars
   -- for _ in 0..i { let idx = iter.next()?; start_idx = idx; }
-  let i' := i.toNat
-  if iter.length < i' then .ok none else
-  let start_idx := if i' = 0 then 0 else iter.getD (i' - 1) 0
-  let iter := iter.drop i'
-  if num.toNat = 0 then .ok (some Str.empty) else
-  let iter := iter ++ end_
-  -- for _ in i..j { let idx = iter.next()?; end_idx = idx; }
-  let n := j.toNat - i'
-  if iter.length < n then .ok none else
-  let end_idx := if n = 0 then start_idx else iter.getD (n - 1) 0
-  -- Some(self.0.0[start_idx..end_idx].into())
-  match Str.index_range s start_idx end_idx with
-  | .ok t => .ok (some t)
-  | .panic => .panic
+  match Str.advance (Str.afterNewlinesFrom 0 s.chars) i.toNat 0 with
+  | none => .ok none
+  | some (start_idx, iter) =>
+    -- if num == 0 { return Some("") }     (num = j - i: the subtraction succeeded)
+    if j.toNat - i.toNat = 0 then .ok (some Str.empty) else
+    -- let mut iter = iter.chain(end);  for _ in i..j { let idx = iter.next()?; end_idx = idx; }
+    match Str.advance (iter ++ end_) (j.toNat - i.toNat) start_idx with
+    | none => .ok none
+    | some (end_idx, _) =>
+      -- Some(self.0.0[start_idx..end_idx].into())
+      match Str.index_range s start_idx end_idx with
+      | .ok t => .ok (some t)
+      | .panic => .panic
 
 /-! ### `inetnum::addr::Prefix` (inetnum 0.1.1, our reading; trusted) -/
 
